@@ -453,6 +453,11 @@ def math_body_ok(body):
     for m in re.finditer(r'\\([A-Za-z]+\*?)([ \t]*\n?[ \t]*)(\[)', body):
         if m.group(1) not in ZERO_OPS and not any(m.group(1).startswith(s) and False for s in SIZERS):
             return False
+    # a bracket directly after the closing brace/bracket of a command's
+    # argument is still "directly after a command": the second argument pass
+    # of read_args attaches it (\beta{y}[x ...)
+    if re.search(r'\\[A-Za-z]+\*?[ \t]*\n?[ \t]*(\{[^{}]*\}|\[[^\[\]]*\])+\[', body):
+        return False
     # sizing command + delimiter followed by [ or {
     for m in re.finditer(r'\\(left|right|big|Big|bigg|Bigg)(\\[A-Za-z]+|\\[{}]|[()<>\[\]|.])([ \t]*\n?[ \t]*)[\[{]', body):
         return False
